@@ -157,7 +157,7 @@ func VH_C17_Alt() {
 var vhNumTexts = []string{
 	"0", "7", "127", "128", "255", "256", "32767", "32768", "65535", "65536", "2147483647", "2147483648",
 	"4294967295", "4294967296", "9223372036854775807", "9223372036854775808", "18446744073709551615", "18446744073709551616",
-	"0x7f", "0x80", "0XFF", "0b101", "0o17", "017", "1_000", "1__0", "", "x", "1e3", "1.5", "Inf", "NaN", "+5", "1e39", "3.4028235e38",
+	"0x7f", "0x80", "0XFF", "0b101", "0o17", "017", "1_000", "1__0", "", "x", "1e3", "1.5", "Inf", "NaN", "+5", "1e39", "3.4028235e38", "3.5e38", "1.00000005960464477539062500001", "0x1p-2", "-0", "1_0.5",
 }
 
 type vnJoin struct {
